@@ -72,6 +72,23 @@ class Trace:
 
     def run(self, settle_from=None):
         steps, impl = self.steps, self.impl
+        if any(st.startswith("reconnect ") for st in steps):
+            # a connection re-established without Disconnected: for the oracles a disconnect immediately followed by a connect
+            # (a session the client never noticed: C09's premise does not hold for it)
+            s2, i2, shift = [], [], 0
+            for k_, st in enumerate(steps):
+                if st.startswith("reconnect "):
+                    t_ = st.split()
+                    s2 += ["disconnect %s" % t_[1], "connect %s %s" % (t_[1], t_[2])]
+                    i2 += [[], impl[k_] if k_ < len(impl) else []]
+                    if settle_from is not None and k_ < settle_from:
+                        shift += 1
+                else:
+                    s2.append(st)
+                    i2.append(impl[k_] if k_ < len(impl) else ["<missing>"])
+            steps, impl = s2, i2
+            if settle_from is not None:
+                settle_from += shift
         cfg = {}
         connected, authorized = {}, set()
         epoch = 0
